@@ -650,6 +650,10 @@ func (w *World) finish(ri *ReqInfo, code int, h http.Header, body []byte, res *R
 	}
 	// the bytes that were delivered name the version they belong to (answers of the harness upstream begin "v=<n> k=..."):
 	// what the client got is the version of the bytes, whatever the headers say
+	if res.Ver != 0 && len(body) == 0 && code == 200 && ri.Method != "HEAD" && ri.Proc != "" {
+		// (no answer of the harness upstream to a scripted request is empty)
+		res.BodyVer = -1
+	}
 	if res.Ver != 0 && len(body) > 0 && code == 200 && ri.Method != "HEAD" {
 		plain := body
 		if h.Get("Content-Encoding") == "gzip" {
